@@ -38,6 +38,8 @@ class Expr:
                 return ('const', 'fn:' + c['fn']['path'], c.get('ty'))
             if 'uneval' in c:
                 return ('static', c['uneval'])
+            if 'bytes' in c:
+                return ('const', ('bytes', tuple(c['bytes'])), c.get('ty'))
             return ('const', None, c.get('ty'))
         p = o.get('copy') or o.get('move')
         if p is None:
